@@ -1,5 +1,6 @@
 import NxProofs.Backend
 import NxProofs.BackendServe
+import NxProofs.BackendConnAck
 /-!
 # C17 — back-end login yields a secure connection authenticated as the issued user
 
@@ -241,5 +242,43 @@ example : ((1700000000 : Int) + 120 - ((1700000000 : Nat) : Int)) * 1073741824 <
 /-- `serve` computes: payloads that are not two buffers are refused with the stream's own exception, at any instant, in any order -/
 example : serve ⟨⟨16, 4, 0⟩, 1700000000, 0, [107]⟩ [⟨[], 5⟩, ⟨[1, 0, 0, 0], 6⟩, ⟨[], 7⟩] =
     [.refuse .overflow, .refuse .overflow, .refuse .overflow] := by decide
+
+/-! ## the client's last gate: the answer to its CONNECT
+
+The station the authentication server advertises may be answered by somebody else than the secure server: a server
+without any Kerberos key (the library's own keyless server acknowledges with an empty payload), one with another key,
+one that echoes a wrong check value. `Backend.checkResponse` mirrors `PRUDPClient.check_connection_response`; the
+handshake (hence `rmc.connect`, hence the login) completes only on a payload it accepts. That the real handshake really
+waits for this verdict is NOT a theorem (it is the order of statements in `PRUDPClient.process_connect`): it is
+established by running the real login against such servers (harness/corr_C17.py, family `fail:station:*`). -/
+
+/-- a client with credentials accepts exactly one CONNECT/ACK payload: (4, check + 1 mod 2^32) as two little-endian u32 -/
+theorem connect_answer_gate (check : Nat) (data : Bytes) :
+    checkResponse true check data = .ok () ↔ data = u32le 4 ++ u32le ((check + 1) % 4294967296) :=
+  checkResponse_ok_iff check data
+
+/-- every other payload — empty (a keyless server), wrong length, wrong length field, wrong check value — raises ValueError -/
+theorem wrong_station_answer_refused (check : Nat) (data : Bytes)
+    (h : data ≠ u32le 4 ++ u32le ((check + 1) % 4294967296)) : checkResponse true check data = .error .value :=
+  checkResponse_wrong check data h
+
+/-- in particular the empty acknowledgement of a server that holds no Kerberos key -/
+theorem keyless_station_refused (check : Nat) : checkResponse true check [] = .error .value := rfl
+
+/-- composed with the server side: the answer of a secure server that admitted the request built from the plan's
+    credentials (`connect_admitted_as_issued`) passes the gate of the client that drew `check` -/
+theorem admitted_answer_accepted (s : SecureServer) (c : Connect) (check : Nat) (data : Bytes) (now : Nat)
+    (pid cid : Nat) (sk resp : Bytes)
+    (hreq : connectRequest s.kc.pidSize c check = .ok data)
+    (h : (s.present ⟨data, now⟩).2 = .accepted pid cid sk resp) (hsk : sk = c.ticket.sessionKey) :
+    checkResponse true check resp = .ok () :=
+  (connect_answer_gate check resp).mpr (connect_admitted_as_issued s c check data now pid cid sk resp hreq h hsk).2.2
+
+example : checkResponse true 0xFFFFFFFF [4, 0, 0, 0, 0, 0, 0, 0] = .ok () := by decide
+example : checkResponse true 0xFFFFFFFF [4, 0, 0, 0, 0xFF, 0xFF, 0xFF, 0xFF] = .error .value := by decide
+example : checkResponse true 5 [4, 0, 0, 0, 6, 0, 0, 0] = .ok () ∧ checkResponse true 5 [4, 0, 0, 0, 5, 0, 0, 0] = .error .value ∧
+    checkResponse true 5 [8, 0, 0, 0, 6, 0, 0, 0] = .error .value ∧ checkResponse true 5 [6, 0, 0, 0] = .error .value ∧
+    checkResponse true 5 [4, 0, 0, 0, 6, 0, 0, 0, 0] = .error .value ∧ checkResponse false 5 [] = .ok () ∧
+    checkResponse false 5 [4, 0, 0, 0, 6, 0, 0, 0] = .error .value := by decide
 
 end Nx.C17
